@@ -3,6 +3,7 @@
 Postconditions are integer facts about the little-endian reading VALn() of the word
 array; frames are `assigns`; alias patterns are the ones the C++ signature permits
 (__restrict operands must be distinct from the written object)."""
+import re
 from bvspec import *
 from units import BVUnit
 
@@ -70,10 +71,11 @@ def c_shl1(n):
         "VAL%d(self) + ((uv%d)__CPROVER_return_value << %d) == (OLD%d(a) << 1)" % (n, n, n, n))
 
 
-def c_shr1(n):
+def c_shr1(n, wb=64):
+    """the shifted-out bit is returned in the top bit of a word_t (wb = its width in the configuration)"""
     return alias_out_a() + assigns("__CPROVER_object_whole(self)") + ens(
-        "(__CPROVER_return_value & 0x7fffffffffffffffULL) == 0",
-        "(VAL%d(self) << 1) + (__CPROVER_return_value >> 63) == OLD%d(a)" % (n, n))
+        "(__CPROVER_return_value & 0x%xULL) == 0" % ((1 << (wb - 1)) - 1),
+        "(VAL%d(self) << 1) + (__CPROVER_return_value >> %d) == OLD%d(a)" % (n, wb - 1, n))
 
 
 def units():
@@ -98,3 +100,22 @@ def units():
     us.append(BVUnit("BigInt<384>::is_even", {"BigInt<384>::is_even": c_is_even(384)}, P, unwind=8, canary=("== 0)", "== 1)")))
     us.append(BVUnit("BigInt<256>::is_one", {"BigInt<256>::is_one": c_is_one(256)}, P, unwind=8, canary=("== 1)", "== 2)"), tier="thorough"))
     return us
+
+
+_units64 = units
+
+
+def units():
+    """+ the same contracts on the portable configuration with 32-bit words (C03): 384-bit and 256-bit instances of the quick tier"""
+    from units import w32_clone
+    us = _units64()
+    out = []
+    for u in us:
+        if u.tier == "quick" and getattr(u, "tu_variant", None) is None:
+            c = w32_clone(u)
+            if "shift_right_in_word<1>" in u.target:
+                n = int(re.search(r"BigInt<(\d+)>", u.target).group(1))
+                c.contracts = {k: (c_shr1(n, 32) if k == u.target else v) for k, v in u.contracts.items()}
+                c.canary = None
+            out.append(c)
+    return us + out
